@@ -107,7 +107,25 @@ def capture_family(tier: str):
     return out
 
 
-def verify_class(gc: Any, funcs: dict, timeout_ms: int, accessors: list[str] | None = None, base_props: list | None = None) -> list[dict]:
+def _sig(fn: ast.FunctionDef) -> str:
+    a = fn.args
+    pos = [x.arg for x in a.posonlyargs + a.args]
+    dflt = dict(zip(reversed(pos), (ast.unparse(d) for d in reversed(a.defaults))))
+    parts = [f"{n}={dflt[n]}" if n in dflt else n for n in pos]
+    if a.kwonlyargs:
+        parts.append("*")
+        parts += [f"{x.arg}={ast.unparse(d)}" if d is not None else x.arg for x, d in zip(a.kwonlyargs, a.kw_defaults)]
+    return ", ".join(parts)
+
+
+def signature_obligation(name: str, fn: ast.FunctionDef, acc: str) -> dict:
+    _, declared = extract.get_function(f"pyoak.node:ASTNode.{acc}")
+    got, want = _sig(fn), _sig(declared)
+    return {"name": name, "status": "discharged" if got == want else "refuted", "backend": "syntactic", "seconds": 0.0, "kind": "signature",
+            "model": "" if got == want else f"signature ({got}) differs from the declared ASTNode.{acc}({want})", "info": {}}
+
+
+def verify_class(gc: Any, funcs: dict, timeout_ms: int, accessors: list[str] | None = None, base_props: list | None = None, signature: bool = False) -> list[dict]:
     reg = Registry()
     world = World(reg)
     lib = SpecLib()
@@ -171,6 +189,9 @@ def verify_class(gc: Any, funcs: dict, timeout_ms: int, accessors: list[str] | N
         mod = extract.parse_text_module(key, txt)
         outer = mod.tree.body[0]
         fn = next(n for n in outer.body if isinstance(n, ast.FunctionDef))
+        # the generated method must offer the signature ASTNode.<accessor> documents (names, keyword-only-ness, defaults): otherwise a call that omits a
+        # flag means something else once the class has been specialised
+        sig_ob = signature_obligation(f"{key}/signature-is-the-declared-one", fn, acc)
         # closure variables -> the Fld constant of the field object they actually hold
         cl_consts = {cn: FLD.wrap(F[real]) for cn, real in closure.items() if real in F}
         world.name_hooks[:] = [lambda m, n, cl=cl_consts: cl.get(n)]
@@ -237,7 +258,7 @@ def verify_class(gc: Any, funcs: dict, timeout_ms: int, accessors: list[str] | N
         results.append({**base, "status": r.status, "error": r.error, "paths": r.paths, "infeasible_paths": r.infeasible_paths,
                         "src_sha": mod.sha256, "fn_hash": r.fn_hash, "canary": r.canary, "seconds": round(r.seconds, 3),
                         "obligations": [{"name": o.name, "status": o.status, "backend": o.backend, "seconds": round(o.seconds, 4), "kind": o.kind,
-                                         "model": (o.model[:600] + " | class: " + gc.source.replace("\n", "; ")[:300]) if o.status != "discharged" else "", "info": o.inputs} for o in r.obligations]})
+                                         "model": (o.model[:600] + " | class: " + gc.source.replace("\n", "; ")[:300]) if o.status != "discharged" else "", "info": o.inputs} for o in r.obligations] + ([sig_ob] if signature else [])})
     return results
 
 
@@ -248,7 +269,7 @@ def _verify_idx(args):
     i, timeout_ms = args
     gc, funcs = _FAM[i]
     try:
-        return verify_class(gc, funcs, timeout_ms)
+        return verify_class(gc, funcs, timeout_ms, signature=True)
     except Exception:
         import traceback
         key = f"generated:{gc.name}"
